@@ -55,7 +55,9 @@ int ifdef_ignore(AsmContext *asm_context)
         if (nested_if == 0) { return 2; }
       }
         else
-      if (strcasecmp(token, "if") == 0 || strcasecmp(token, "ifdef") == 0)
+      if (strcasecmp(token, "if") == 0 ||
+          strcasecmp(token, "ifdef") == 0 ||
+          strcasecmp(token, "ifndef") == 0)
       {
         nested_if++;
       }
@@ -65,22 +67,43 @@ int ifdef_ignore(AsmContext *asm_context)
 
 int parse_ifdef_ignore(AsmContext *asm_context, int ignore_section)
 {
+  int ret;
+
   if (ignore_section == 1)
   {
-    if (ifdef_ignore(asm_context) == 2)
-    {
-      asm_context->assemble();
-    }
+    ret = ifdef_ignore(asm_context);
+
+    if (ret == -1) { return -1; }
+
+    // The skipped branch ended with .endif.
+    if (ret == 0) { return 0; }
+
+    // The skipped branch ended with .else, so assemble up to the .endif.
+    ret = asm_context->assemble();
   }
     else
   {
-    if (asm_context->assemble() == 2)
+    ret = asm_context->assemble();
+
+    if (ret == 2)
     {
-      ifdef_ignore(asm_context);
+      // The assembled branch ended with .else, so skip up to the .endif.
+      ret = ifdef_ignore(asm_context);
+
+      if (ret == 0) { return 0; }
+      if (ret == 2) { print_error(asm_context, "Unexpected .else"); }
+
+      return -1;
     }
   }
 
-  return 0;
+  // assemble() returns 4 when it gets to the .endif of this conditional.
+  if (ret == 4) { return 0; }
+
+  if (ret == 2) { print_error(asm_context, "Unexpected .else"); }
+  if (ret == 0) { print_error(asm_context, "Missing endif"); }
+
+  return -1;
 }
 
 int parse_ifdef(AsmContext *asm_context, int ifndef)
@@ -99,6 +122,7 @@ int parse_ifdef(AsmContext *asm_context, int ifndef)
   if (token_type != TOKEN_STRING)
   {
     print_error(asm_context, "#ifdef has no label");
+    asm_context->ifdef_count--;
     return -1;
   }
 
@@ -112,11 +136,11 @@ int parse_ifdef(AsmContext *asm_context, int ifndef)
     if (ifndef == 0) { ignore_section = 1; }
   }
 
-  parse_ifdef_ignore(asm_context, ignore_section);
+  int ret = parse_ifdef_ignore(asm_context, ignore_section);
 
   asm_context->ifdef_count--;
 
-  return 0;
+  return ret;
 }
 
 int parse_if(AsmContext *asm_context)
@@ -129,19 +153,16 @@ int parse_if(AsmContext *asm_context)
   num = eval_ifdef_expression(asm_context);
   asm_context->parsing_ifdef = 0;
 
-  if (num == -1) { return -1; }
+  if (num == -1)
+  {
+    asm_context->ifdef_count--;
+    return -1;
+  }
 
-  if (num != 0)
-  {
-    parse_ifdef_ignore(asm_context, 0);
-  }
-    else
-  {
-    parse_ifdef_ignore(asm_context, 1);
-  }
+  int ret = parse_ifdef_ignore(asm_context, num != 0 ? 0 : 1);
 
   asm_context->ifdef_count--;
 
-  return 0;
+  return ret;
 }
 
